@@ -12,7 +12,11 @@
 (***************************************************************************)
 EXTENDS Interp, Json, IOUtils, TLCExt
 
-MCNext == Next /\ l' = l
+\* a finished run stutters, so that TLC's deadlock check (on in every cfg) flags exactly the states in which the engine is STUCK:
+\* still running, but no action of the specification enabled (C09 "or ends", C02 "every policy yields the results")
+MCNext == \/ Next /\ l' = l
+          \/ phase \in {"Done", "Panic"} /\ UNCHANGED vars /\ l' = l
+SimNext == Next /\ l' = l      \* simulation (binding A): a behaviour ends where the run ends
 Expected == Inst.expected
 RowsPrefix == Len(rows) <= Len(Expected) /\ \A j \in 1..Len(rows) : RowEq(rows[j], Expected[j])
 RowsFinal == phase = "Done" => Len(rows) = Len(Expected)
